@@ -108,6 +108,11 @@ func events(in Input) EventsOut {
 				_ = w.Add(filepath.Join(root, op.Dir))
 			}
 			barrier(i)
+			if op.Kind == "mvdir-away" {
+				// as the cache does once it has seen the Rename event of a watched directory: drop the watch of the moved
+				// directory (fsnotify 1.5.1 loses the path of a watch that is added again under a name it still knows)
+				_ = w.Remove(filepath.Join(root, op.Dir))
+			}
 		}
 		_ = w.Close()
 		_ = os.RemoveAll(root)
